@@ -130,7 +130,8 @@ Proof. rewrite ul_hack_eq. reflexivity. Qed.
 Section IndexInst.
 Variable native : bool.
 Variable cutover : Z -> Z.
-Variables maxBruteForce maxLen primeRK : Z.
+Variables maxBruteForce maxLen primeRK nativeMax rtMaxLen : Z.
+Hypothesis Hcontract : nativeMax <= rtMaxLen.   (* native calls within the runtime's contract; discharged at the generated constants in Properties/C14.v *)
 
 Theorem bruteforce_refines121 s sub :
   wf s -> wf sub -> (2 <= rune_count sub)%nat ->
@@ -148,11 +149,12 @@ Proof. apply (rabinkarp_refines fold121 lower (fold_facts_pkg p) width_facts121)
 (* the whole of Index, on every pair of byte strings, for every threshold configuration *)
 Theorem index_refines121 s sub :
   wf s -> wf sub ->
-  Impl6.Index native cutover fold121 lower fold_map121 fold_map_excl121 upper_lower121 maxBruteForce maxLen primeRK p s sub =
+  Impl6.Index native cutover fold121 lower fold_map121 fold_map_excl121 upper_lower121 maxBruteForce maxLen primeRK nativeMax rtMaxLen p s sub =
   Ok (index fold121 s sub).
 Proof.
   apply (index_refines fold121 lower (fold_facts_pkg p) width_facts121 native cutover fold_map121 fold_map_excl121 upper_lower121
-           maxBruteForce maxLen primeRK p).
+           maxBruteForce maxLen primeRK nativeMax rtMaxLen p).
+  - exact Hcontract.
   - intros r0 x Hr Hx. rewrite cands_of_eq. apply cands_exact; assumption.
   - intros r0 x Hr Hx. rewrite cands_of_eq in Hx. apply (cands_range r0 x Hr Hx).
   - intros r0 x Hr Hx. apply ascii_cands_exact; assumption.
@@ -163,14 +165,14 @@ Qed.
 
 Theorem contains_refines121 s sub :
   wf s -> wf sub ->
-  Impl6.Contains native cutover fold121 lower fold_map121 fold_map_excl121 upper_lower121 maxBruteForce maxLen primeRK p s sub =
+  Impl6.Contains native cutover fold121 lower fold_map121 fold_map_excl121 upper_lower121 maxBruteForce maxLen primeRK nativeMax rtMaxLen p s sub =
   Ok (contains fold121 s sub).
 Proof.
   intros Hs Hsub. unfold Impl6.Contains. rewrite (index_refines121 s sub Hs Hsub). cbn [bind]. rewrite contains_index. reflexivity.
 Qed.
 
 (* Count and Cut around the real Index *)
-Notation Index121 := (Impl6.Index native cutover fold121 lower fold_map121 fold_map_excl121 upper_lower121 maxBruteForce maxLen primeRK p).
+Notation Index121 := (Impl6.Index native cutover fold121 lower fold_map121 fold_map_excl121 upper_lower121 maxBruteForce maxLen primeRK nativeMax rtMaxLen p).
 
 Theorem count_index_refines121 s sub :
   wf s -> wf sub -> (forall c, sub = [c] -> 128 <= c) ->
